@@ -196,21 +196,22 @@ theorem passA_error {σ : Schema} {del : List Bytes → St → Bytes → Res} {p
           · simp [beforeDeleteA] at h4
           · cases hF
 
-/-- `DeleteById` on A never returns the reference-exists error (nor null-not-allowed) -/
+/-- `DeleteById` on A never returns the reference-exists error (nor null-not-allowed); a veto only while the
+    caller's entity constraint protects an entity -/
 theorem deleteA_error (σ : Schema) : ∀ (n : Nat) (prog : List Bytes) (s : St) (id : Bytes) (e : Err),
-    deleteA σ n prog s id = .error e → e = .notFound ∨ e = .other ∨ e = .diverge := by
+    deleteA σ n prog s id = .error e → e = .notFound ∨ e = .other ∨ e = .diverge ∨ (e = .veto ∧ σ.protect ≠ none) := by
   intro n
   induction n with
-  | zero => intro prog s id e h; simp only [deleteA] at h; cases h; exact Or.inr (Or.inr rfl)
+  | zero => intro prog s id e h; simp only [deleteA] at h; cases h; exact Or.inr (Or.inr (Or.inl rfl))
   | succ n ih =>
     intro prog s id e h
-    have hpass : ∀ st, passA σ (deleteA σ n) prog id st = .error e → e = .notFound ∨ e = .other ∨ e = .diverge := by
+    have hpass : ∀ st, passA σ (deleteA σ n) prog id st = .error e → e = .notFound ∨ e = .other ∨ e = .diverge ∨ (e = .veto ∧ σ.protect ≠ none) := by
       intro st hp
       rcases passA_error hp with h1 | ⟨st', x, h1⟩
       · exact Or.inl h1
       · exact ih _ _ _ _ h1
     have hrounds : ∀ (l : List (Option Child)) (st : St), l.foldlM (roundA σ (deleteA σ n) prog id) st = .error e →
-        e = .notFound ∨ e = .other ∨ e = .diverge := by
+        e = .notFound ∨ e = .other ∨ e = .diverge ∨ (e = .veto ∧ σ.protect ≠ none) := by
       intro l
       induction l with
       | nil => intro st hl; simp [List.foldlM_nil, pure, Except.pure] at hl
@@ -227,10 +228,62 @@ theorem deleteA_error (σ : Schema) : ∀ (n : Nat) (prog : List Bytes) (s : St)
     split at h
     · split at h
       · split at h
-        · cases h
+        · split at h
+          · next hv => cases h; exact Or.inr (Or.inr (Or.inr ⟨rfl, by rw [hv]; simp⟩))
+          · cases h
         · cases h; exact Or.inr (Or.inl rfl)
       · next e' hF => cases h; exact hrounds _ _ hF
     · cases h; exact Or.inl rfl
+
+/-! ### a successful delete never removed the protected entity -/
+
+theorem Reach.exists_entry {as : Map EntA} {id k : Bytes} (h : Reach as id k) : ∃ e, as.lookup k = some e := by
+  cases h with
+  | direct he _ => exact ⟨_, he⟩
+  | step _ he _ => exact ⟨_, he⟩
+
+theorem deleteA_keeps_protected (σ : Schema) {v : Bytes} (hv : σ.protect = some v) {e : EntA} :
+    ∀ (n : Nat) (prog : List Bytes) (s : St) (id : Bytes) (s' : St),
+      deleteA σ n prog s id = .ok s' → s.as.lookup v = some e → s'.as.lookup v = some e := by
+  intro n
+  induction n with
+  | zero => intro prog s id s' h; simp [deleteA] at h
+  | succ n ih =>
+    intro prog s id s' h he
+    obtain ⟨_, s3, hF, _, rfl, hne⟩ := deleteA_succ_ok h
+    have hvid : v ≠ id := by intro hh; subst hh; exact hne hv
+    have h3 : s3.as.lookup v = some e := by
+      refine foldlM_pres (R := fun st => st.as.lookup v = some e) ?_ _ s s3 he hF
+      intro st r st' hst hr
+      obtain ⟨sp, ⟨s1, s2, h1, h2, hc⟩, _, rfl⟩ := roundA_ok hr
+      have g := roundA_geq (σ := σ) (s3 := sp) (id := id) r
+      rw [g.1]
+      refine cascadeOver_pres (R := fun st => st.as.lookup v = some e)
+        (fun st x st' a b => ih (mark prog id) st x st' b a) _ s2 sp ?_ hc
+      rw [bossDel_as h2, ownerDel_as h1]; exact hst
+    simp only [Map.lookup_erase, hvid, if_false]
+    exact h3
+
+theorem deleteB_keeps_protected {σ : Schema} {v : Bytes} (hv : σ.protect = some v) {e : EntA} {s s' : St} {id : Bytes}
+    (hI : Inv σ s) (h : deleteB σ s id = .ok s') (he : s.as.lookup v = some e) : s'.as.lookup v = some e := by
+  obtain ⟨_, s2, _, _, _, _, _, hF, _, _, rfl⟩ := deleteB_succ_ok hI h
+  show s2.as.lookup v = some e
+  refine foldlM_pres (R := fun st => st.as.lookup v = some e) ?_ _ s s2 he hF
+  intro st cb st' hst hstep
+  cases cb with
+  | thingsRestrict =>
+    simp only [beforeDeleteB] at hstep
+    split at hstep
+    · cases hstep
+    · cases hstep; exact hst
+  | depCascade =>
+    simp only [beforeDeleteB] at hstep
+    split at hstep
+    · exact cascadeOver_pres (R := fun st => st.as.lookup v = some e)
+        (fun st x st' a b => deleteA_keeps_protected σ hv _ _ st x st' b a) _ _ st' hst hstep
+    · split at hstep
+      · cases hstep
+      · cases hstep; exact hst
 
 /-- a reference-exists refusal has a reason: some entity refers to `b` through `owner`, or — restrict
     variant — through `dep` -/
@@ -258,7 +311,7 @@ theorem deleteB_refExists_inv {σ : Schema} {s : St} {b : Bytes} (hI : Inv σ s)
     split at hr
     · exfalso
       obtain ⟨st', x, hx⟩ := cascadeOver_error _ st hr
-      rcases deleteA_error σ _ _ _ _ _ hx with h' | h' | h' <;> cases h'
+      rcases deleteA_error σ _ _ _ _ _ hx with h' | h' | h' | ⟨h', _⟩ <;> cases h'
     · next hnc =>
       split at hr
       · next hne =>
